@@ -31,6 +31,8 @@ fn variant_cfg(v: &str, seed: u64) -> Value {
         "A" => json!({"own": {"id": 5}, "ports": [{"p2p": false, "asym": "asym"}, {"p2p": false, "asym": "asym"}], "seed": seed}),
         // boundary clock with path trace and the real TlvForwarder between its two ports
         "F" => json!({"own": {"id": 5, "ptrace": true}, "fwd": true, "ports": [{"p2p": false, "asym": "asym"}, {"p2p": false, "asym": "asym"}], "seed": seed}),
+        // as A, the own priority1 and priority2 differ
+        "P" => json!({"own": {"id": 5, "p2": 120}, "ports": [{"p2p": false, "asym": "asym"}, {"p2p": false, "asym": "asym"}], "seed": seed}),
         "M" => json!({"own": {"id": 5}, "ports": [{"p2p": false, "asym": "asym"}, {"p2p": false, "asym": "asym"}], "seed": seed}),
         "B" => json!({"own": {"id": 5, "ptrace": true}, "ports": [{"p2p": false, "asym": "asym"}, {"p2p": false, "mo": true, "asym": "asym"}], "seed": seed}),
         _ => json!({"own": {"id": 5}, "ports": [{"p2p": false, "aml": [2, 9], "asym": "asym"}, {"p2p": true, "asym": "asym"}, {"p2p": false, "mo": true, "asym": "asym"}], "seed": seed}),
@@ -80,6 +82,8 @@ fn obs(w: &World<RecMutex>, res: &Value) -> Value {
         "nseq": (0..n).map(|i| snap[i]["nseq"].clone()).collect::<Vec<_>>(),
         "fml": (0..n).map(|i| Value::Array(snap[i]["fml"].as_array().unwrap().iter().map(|m| json!({"id": m["id"],
                   "msgs": m["msgs"].as_array().unwrap().iter().map(|x| json!({"seq": x["seq"], "age": x["age"].as_i64().unwrap() / 1000, "steps": x["steps"]})).collect::<Vec<_>>()})).collect())).collect::<Vec<_>>(),
+        // the master each slave port listens to (the port's own record, not the instance's parent data set)
+        "rm": (0..n).map(|i| if pr["pst"][i] == "S" { snap[i]["rm"].clone() } else { json!([0, 0]) }).collect::<Vec<_>>(),
         "rng": pr["rng"],
         "clk": pr["clk"].as_array().unwrap().iter().map(|c| json!([c[0], c[1]])).collect::<Vec<_>>(),
         // calls on the port's filter: which port, which call, and which of offset / delay / peer delay a measurement carries
@@ -172,7 +176,9 @@ fn main() {
                     let many = variant == "M";
                     let srcs = [json!([2, 1]), json!([9, 1]), json!([3, 2]), json!([5, 1]), json!([5, 3]), json!([11, 1])];
                     let gi = if many { r.below(14) as usize } else { r.below(6) as usize };
-                    let src = if gi < 6 { srcs[gi].clone() } else { json!([6 + gi as u64, 1]) };
+                    let mut src = if gi < 6 { srcs[gi].clone() } else { json!([6 + gi as u64, 1]) };
+                    // now and then another port of the same foreign clock (a different master, same clock identity)
+                    if gi <= 2 && r.below(6) == 0 { src = json!([src[0], src[1].as_u64().unwrap() + 1]); }
                     let gi = gi % 6;
                     let key = src.to_string();
                     // sequence ids start just below the two seams of the serial-number comparison for the first two masters
